@@ -542,6 +542,91 @@ fn c09_modern(st: &mut Stats, t: &T) {
     }
 }
 
+/// Every text spelling the modern reader accepts for an atom: hex, decimal (if canonical), double-quoted and
+/// single-quoted with the delimiter and backslashes escaped (if printable).
+fn source_spellings(v: &[u8]) -> Vec<String> {
+    let mut out = vec![];
+    if v.is_empty() {
+        return vec!["()".to_string(), "\"\"".to_string(), "''".to_string()];
+    }
+    out.push(format!("0x{}", hex::encode(v)));
+    let n = num_bigint::BigInt::from_signed_bytes_be(v);
+    if int_bytes_big(&n) == v {
+        out.push(n.to_string());
+    }
+    if v.iter().all(|b| (0x20..0x7f).contains(b)) {
+        for delim in [b'"', b'\''] {
+            let mut t = String::new();
+            t.push(delim as char);
+            for b in v {
+                if *b == delim || *b == b'\\' {
+                    t.push('\\');
+                }
+                t.push(*b as char);
+            }
+            t.push(delim as char);
+            out.push(t);
+        }
+    }
+    out
+}
+
+/// A value READ from source text (so it carries the spelling's own representation: Integer, hex string,
+/// double- or single-quoted string), printed by the modern printer and read again by both readers.
+fn c09_modern_spelling(st: &mut Stats, text: &str, position: usize) {
+    st.eval();
+    let src = match position {
+        0 => text.to_string(),
+        1 => format!("({} 1)", text),
+        2 => format!("(1 {})", text),
+        _ => format!("(1 . {})", text),
+    };
+    let replay = json!({"kind": "modern-spelling", "text": src});
+    let src2 = src.clone();
+    let r = catch(move || {
+        let _g = NewStyleIntConversion::new(true);
+        let forms = read_modern(&src2)?;
+        if forms.len() != 1 {
+            return Err(format!("{} forms", forms.len()));
+        }
+        let x = from_sexp(forms[0].clone())?;
+        Ok((x, forms[0].to_string()))
+    });
+    let (x, printed) = match r {
+        Ok(Ok(p)) => p,
+        Ok(Err(_)) => {
+            st.outcome("spelling-not-accepted(no claim)");
+            return;
+        }
+        Err(p) => {
+            st.violation("modern/print-panic", format!("reading and printing {:?}: {}", src, p), src.len(), replay);
+            return;
+        }
+    };
+    let back = read_modern(&printed).and_then(|v| if v.len() == 1 { from_sexp(v[0].clone()) } else { Err(format!("{} forms", v.len())) });
+    let cls = c09_offender(&x, None);
+    match back {
+        Ok(b) if b == x => {
+            st.outcome("modern-reader-ok");
+            st.nontrivial_by_index();
+            if printed.len() > 3 && printed.len() < 30 && printed != src {
+                st.sample(json!({"source": src, "printed": printed}));
+            }
+        }
+        Ok(b) => st.violation(&format!("modern-spelling/reader-different/{}", cls), format!("source {:?} (denoting {}) prints as {:?}, which the modern reader reads as {}", src, x.short(), printed, b.short()), src.len(), replay.clone()),
+        Err(e) => st.violation(&format!("modern-spelling/reader-rejected/{}", cls), format!("source {:?} prints as {:?}, modern reader: {}", src, printed, e), src.len(), replay.clone()),
+    }
+    st.eval();
+    match assemble(&printed) {
+        Ok(b) if b == x => {
+            st.outcome("modern-print-classic-assemble-ok");
+            st.nontrivial_by_index();
+        }
+        Ok(b) => st.violation(&format!("modern-spelling/assembler-different/{}", cls), format!("source {:?} (denoting {}) prints as {:?}, which the classic assembler reads as {}", src, x.short(), printed, b.short()), src.len(), replay),
+        Err(e) => st.violation(&format!("modern-spelling/assembler-rejected/{}", cls), format!("source {:?} prints as {:?}, classic assembler: {}", src, printed, e), src.len(), replay),
+    }
+}
+
 fn positions(x: &T) -> [T; 4] {
     [x.clone(), T::list(&[x.clone(), T::int(1)]), T::list(&[T::int(1), x.clone()]), T::p(T::int(1), x.clone())]
 }
@@ -616,6 +701,26 @@ pub fn c09(thorough: bool, replay: Option<String>) -> i32 {
     let n = sp.total;
     let (st, capped) = par_range(n, 512, cap, || (), |_, st, i| c09_modern(st, &sp.get(i)));
     rep.add_sub("modern/trees", &format!("every tree with 1..{} leaves over the same {} atoms", leaves, nalpha), n, true, capped, st);
+    // values as READ from source text, in every spelling: the printer sees Integer / hex-string / double- and
+    // single-quoted-string representations, not only what convert_from_clvm_rs produces
+    {
+        let mut texts: Vec<String> = vec![];
+        for i in 0..bytes_upto_count(2) {
+            texts.extend(source_spellings(&bytes_upto_get(i)));
+        }
+        // printable strings of length 3 and 4 over the characters the printers and readers branch on
+        let pr: Vec<u8> = b"ax\"'\\ 0(;#.".to_vec();
+        for i in strings_upto_count(pr.len(), 2)..strings_upto_count(pr.len(), if thorough { 5 } else { 4 }) {
+            texts.extend(source_spellings(&strings_upto_get(&pr, i)));
+        }
+        texts.sort();
+        texts.dedup();
+        let n = texts.len() as u64 * 4;
+        let texts = std::sync::Arc::new(texts);
+        let tx = texts.clone();
+        let (st, capped) = par_range(n, 2048, cap, || (), move |_, st, i| c09_modern_spelling(st, &tx[(i / 4) as usize], (i % 4) as usize));
+        rep.add_sub("modern/source-spellings", &format!("{} source spellings (hex, decimal, double-quoted, single-quoted with escapes) of every atom of length 0..2 and of every printable string of length 3..{} over the characters a x \" ' \\ space 0 ( ; # . - read by the modern reader, printed, and read again by both readers, in 4 positions", texts.len(), if thorough { 5 } else { 4 }), n, true, capped, st);
+    }
     // long atoms
     let mut longs: Vec<T> = vec![];
     for l in [4usize, 5, 8, 16, 31, 32, 33, 64, 100, 1000] {
